@@ -6,6 +6,7 @@ package operated
 //@ -- C07: shifting is modular translation on the grid; malformed IDs give "".
 //@ -- general case: any string (no-panic sweep, malformed => "")
 //@ func GetShiftingSpatialID
+//@   pure
 //@   props C07 C08 C06 C14 C15
 //@   nooverflow
 //@   ensures [malformed] !isext(spatialID) ==> r0 == ""
@@ -123,6 +124,31 @@ package operated
 //@   ensures [err-iff-negative] (hLayers < 0 || vLayers < 0) <==> r1 != nil
 //@   ensures [empty-on-error] r1 != nil ==> len(r0) == 0
 //@   ensures [nodup] r1 == nil ==> nodup(r0)
+//@ end
+//@ -- exact membership: the result is the set of all shifts of all input IDs by the offsets of the (2h+1)^2 (2v+1) box
+//@ -- without the centre (osh: the shift as an opaque symbol, unfolded to the pure function GetShiftingSpatialID)
+//@ defineopaquestr osh(id: str, dx, dy, dv) = GetShiftingSpatialID(id, dx, dy, dv)
+//@ case GetNspatialIdsAroundVoxcels membership
+//@   props C08 C14
+//@   nooverflow
+//@   unfold osh
+//@   requires 0 <= hLayers && hLayers <= 1024 && 0 <= vLayers && vLayers <= 1024
+//@   ensures [covers] r1 == nil && (forall k, dx, dy, dv :: 0 <= k && k < len(spatialIDs) && 0 - hLayers <= dx && dx <= hLayers && 0 - hLayers <= dy && dy <= hLayers && 0 - vLayers <= dv && dv <= vLayers && !(dx == 0 && dy == 0 && dv == 0) && (true) ==> member(osh(spatialIDs[k], dx, dy, dv), r0))
+//@   ensures [sound] (forall e: str :: member(e, r0) ==> ((exists k, dx, dy, dv :: 0 <= k && k < len(spatialIDs) && 0 - hLayers <= dx && dx <= hLayers && 0 - hLayers <= dy && dy <= hLayers && 0 - vLayers <= dv && dv <= vLayers && !(dx == 0 && dy == 0 && dv == 0) && (true) && e == osh(spatialIDs[k], dx, dy, dv))))
+//@   loop 0 invariant [bounds] 0 - hLayers <= xShiftIndex && xShiftIndex <= hLayers + 1
+//@   loop 0 invariant [covers] (forall k, dx, dy, dv :: 0 <= k && k < len(spatialIDs) && 0 - hLayers <= dx && dx <= hLayers && 0 - hLayers <= dy && dy <= hLayers && 0 - vLayers <= dv && dv <= vLayers && !(dx == 0 && dy == 0 && dv == 0) && (dx < xShiftIndex) ==> member(osh(spatialIDs[k], dx, dy, dv), finalspatialIDs))
+//@   loop 0 invariant [sound] (forall e: str :: member(e, finalspatialIDs) ==> ((exists k, dx, dy, dv :: 0 <= k && k < len(spatialIDs) && 0 - hLayers <= dx && dx <= hLayers && 0 - hLayers <= dy && dy <= hLayers && 0 - vLayers <= dv && dv <= vLayers && !(dx == 0 && dy == 0 && dv == 0) && (dx < xShiftIndex) && e == osh(spatialIDs[k], dx, dy, dv))))
+//@   loop 1 invariant [bounds] 0 - hLayers <= xShiftIndex && xShiftIndex <= hLayers && 0 - hLayers <= yShiftIndex && yShiftIndex <= hLayers + 1
+//@   loop 1 invariant [covers-x] (forall k, dx, dy, dv :: 0 <= k && k < len(spatialIDs) && 0 - hLayers <= dx && dx <= hLayers && 0 - hLayers <= dy && dy <= hLayers && 0 - vLayers <= dv && dv <= vLayers && !(dx == 0 && dy == 0 && dv == 0) && dx < xShiftIndex ==> member(osh(spatialIDs[k], dx, dy, dv), finalspatialIDs))
+//@   loop 1 invariant [covers-y] (forall k, dx, dy, dv :: 0 <= k && k < len(spatialIDs) && 0 - hLayers <= dx && dx <= hLayers && 0 - hLayers <= dy && dy <= hLayers && 0 - vLayers <= dv && dv <= vLayers && !(dx == 0 && dy == 0 && dv == 0) && dx == xShiftIndex && dy < yShiftIndex ==> member(osh(spatialIDs[k], dx, dy, dv), finalspatialIDs))
+//@   loop 1 invariant [sound] (forall e: str :: member(e, finalspatialIDs) ==> ((exists k, dx, dy, dv :: 0 <= k && k < len(spatialIDs) && 0 - hLayers <= dx && dx <= hLayers && 0 - hLayers <= dy && dy <= hLayers && 0 - vLayers <= dv && dv <= vLayers && !(dx == 0 && dy == 0 && dv == 0) && (dx < xShiftIndex || (dx == xShiftIndex && dy < yShiftIndex)) && e == osh(spatialIDs[k], dx, dy, dv))))
+//@   loop 2 invariant [bounds] 0 - hLayers <= xShiftIndex && xShiftIndex <= hLayers && 0 - hLayers <= yShiftIndex && yShiftIndex <= hLayers && 0 - vLayers <= vShiftIndex && vShiftIndex <= vLayers + 1
+//@   loop 2 invariant [covers-x] (forall k, dx, dy, dv :: 0 <= k && k < len(spatialIDs) && 0 - hLayers <= dx && dx <= hLayers && 0 - hLayers <= dy && dy <= hLayers && 0 - vLayers <= dv && dv <= vLayers && !(dx == 0 && dy == 0 && dv == 0) && dx < xShiftIndex ==> member(osh(spatialIDs[k], dx, dy, dv), finalspatialIDs))
+//@   loop 2 invariant [covers-y] (forall k, dx, dy, dv :: 0 <= k && k < len(spatialIDs) && 0 - hLayers <= dx && dx <= hLayers && 0 - hLayers <= dy && dy <= hLayers && 0 - vLayers <= dv && dv <= vLayers && !(dx == 0 && dy == 0 && dv == 0) && dx == xShiftIndex && dy < yShiftIndex ==> member(osh(spatialIDs[k], dx, dy, dv), finalspatialIDs))
+//@   loop 2 invariant [covers-v] (forall k, dx, dy, dv :: 0 <= k && k < len(spatialIDs) && 0 - hLayers <= dx && dx <= hLayers && 0 - hLayers <= dy && dy <= hLayers && 0 - vLayers <= dv && dv <= vLayers && !(dx == 0 && dy == 0 && dv == 0) && dx == xShiftIndex && dy == yShiftIndex && dv < vShiftIndex ==> member(osh(spatialIDs[k], dx, dy, dv), finalspatialIDs))
+//@   loop 2 invariant [sound] (forall e: str :: member(e, finalspatialIDs) ==> ((exists k, dx, dy, dv :: 0 <= k && k < len(spatialIDs) && 0 - hLayers <= dx && dx <= hLayers && 0 - hLayers <= dy && dy <= hLayers && 0 - vLayers <= dv && dv <= vLayers && !(dx == 0 && dy == 0 && dv == 0) && (dx < xShiftIndex || (dx == xShiftIndex && dy < yShiftIndex) || (dx == xShiftIndex && dy == yShiftIndex && dv < vShiftIndex)) && e == osh(spatialIDs[k], dx, dy, dv))))
+//@   -- (the offsets are quantified and equated to the loop variables so that the clause is found by matching on osh(...))
+//@   loop 3 invariant [row] len(shiftIDs) == $i && (forall j, dx, dy, dv :: 0 <= j && j < $i && dx == xShiftIndex && dy == yShiftIndex && dv == vShiftIndex ==> shiftIDs[j] == osh(spatialIDs[j], dx, dy, dv))
 //@ end
 //@ -- the layer counts the property quantifies over: the capacity computation does not overflow
 //@ case GetNspatialIdsAroundVoxcels small-layers
